@@ -48,6 +48,31 @@ theorem finishT_fields (w : World) (wf : List WT) (t : Nat) (h : TrackedJob w wf
       simp only [Option.map_some, Option.some.injEq]
       split <;> rfl
 
+/-- finishing jobs never touches the recorded specs -/
+theorem finishT_hashes (w : World) (wf : List WT) (t : Nat) :
+    (w.finishT wf t).hashes = w.hashes ∧ (w.finishT wf t).hashing = w.hashing := by
+  simp only [World.finishT]
+  cases alook (nameOf wf t) w.tracked with
+  | none => exact ⟨rfl, rfl⟩
+  | some jid =>
+    simp only [World.finishJob]
+    cases w.job? jid with
+    | none => exact ⟨rfl, rfl⟩
+    | some j =>
+      simp only [Bool.not_true, Bool.false_eq_true, ↓reduceIte]
+      cases wf.find? (fun t => t.name == j.name) with
+      | none => exact ⟨rfl, rfl⟩
+      | some wt => exact ⟨rfl, rfl⟩
+
+theorem drain_hashes (wf : List WT) : ∀ (order : List Nat) (w : World),
+    (order.foldl (fun w t => w.finishT wf t) w).hashes = w.hashes ∧
+    (order.foldl (fun w t => w.finishT wf t) w).hashing = w.hashing
+  | [], _ => ⟨rfl, rfl⟩
+  | t :: rest, w => by
+    simp only [List.foldl_cons]
+    rw [(drain_hashes wf rest (w.finishT wf t)).1, (drain_hashes wf rest (w.finishT wf t)).2]
+    exact finishT_hashes w wf t
+
 theorem trackedJob_preserved (w : World) (wf : List WT) (t u : Nat) (ht : TrackedJob w wf t) (hu : TrackedJob w wf u) :
     TrackedJob (w.finishT wf t) wf u := by
   obtain ⟨_, _, htr, _, hjobs⟩ := finishT_fields w wf t ht
